@@ -298,6 +298,9 @@ func (p *faultProp) Gen(seed uint64, tier string, i int) Case {
 	sh := faultShapes[shape]
 	c := Case{Prop: p.id, Kind: "fault", Seed: seed, Index: i, Query: sh.Query, Window: faultWindow(instant), Dataset: faultDataset()}
 	c.Engine = EngineCfg{Opt: sh.Opt, Fallback: sh.Fallback, Procs: procs}
+	if p.id == "C17" {
+		c.Engine.Debug = r.P(0.25)
+	}
 	if c.Engine.Opt == "" {
 		c.Engine.Opt = "none"
 	}
@@ -694,7 +697,7 @@ func (p *faultProp) Check(c Case) Outcome {
 	var faults []Fault
 	if ok {
 		faults = []Fault{f}
-		if p.id == "C15" && len(c.Store.Faults) == 0 {
+		if (p.id == "C15" || p.id == "C13") && len(c.Store.Faults) == 0 {
 			// a quarter of the cases: a second fault at another address (pairs of faults, e.g. on two shards)
 			if pick, _ := c.Extra["pick"].(float64); uint64(pick)%4 == 0 {
 				addrs := addressesOf(cal.Report, kind)
@@ -886,9 +889,24 @@ func (p *faultProp) checkSequence(c Case) Outcome {
 		if k == 0 {
 			q = c.Query
 		}
-		cfg := EngineCfg{Opt: sh.Opt, Fallback: sh.Fallback, Procs: c.Engine.Procs}
+		cfg := EngineCfg{Opt: sh.Opt, Fallback: sh.Fallback, Procs: c.Engine.Procs, Debug: r.P(0.3)}
 		w := faultWindow(r.P(0.3))
 		st.Phase.Store(0)
+		if r.P(0.4) {
+			// a query that is created and closed but never executed opens no querier
+			b0 := len(st.Report().Queriers)
+			withProcs(cfg.Procs, func() {
+				if cq, err := NewQuery(engine.New(engOpts(cfg, nil)), st, cfg, q, w); err == nil {
+					cq.Close()
+				}
+			})
+			EngineGoroutines(time.Second)
+			if opened := len(st.Report().Queriers) - b0; opened != 0 {
+				o.Add("querier-opened-without-exec", fmt.Sprintf("query %d of the sequence (`%s`, debug writer=%v): %d querier(s) opened for a query that was created and closed but never executed", k, q, cfg.Debug, opened))
+				break
+			}
+			o.Count("created_never_executed", 1)
+		}
 		before := len(st.Report().Queriers)
 		got := RunEngine(ctx, st, cfg, q, w)
 		rep := st.Report()
